@@ -1137,11 +1137,11 @@ package engine
 //@   requires conns != nil
 //@   assigns allof("E.main_sourcePath"), allof("E.token_Pos"), allof("MH.Int.S_token_Position"), allof("MV.Int.S_token_Position"), allof("MH.Int.Int"), allof("MV.Int.Int")
 //@   ensures [C04,C13] associated-with-an-elision-at-or-before-it: forall k int {has(conns, k)} :: has(conns, k) && !old(has(conns, k)) ==> posLE(posOfFn(getPosition, conns[k]), posOfFn(getPosition, k))
-//@   ensures [C04,C13,C16] success-means-every-plus-elision-is-associated: err == nil ==> forall j int {rhs[j]} :: 0 <= j && j < len(rhs) ==> has(conns, rhs[j])
+//@   ensures [C04,C13,C16,C19] success-means-every-plus-elision-is-associated: err == nil ==> forall j int {rhs[j]} :: 0 <= j && j < len(rhs) ==> has(conns, rhs[j])
 //@   loop 0
-//@     invariant [C04,C13,C16] every-plus-elision-so-far-is-associated: forall j int {rhs[j]} :: 0 <= j && j < #k ==> has(conns, rhs[j])
+//@     invariant [C04,C13,C16,C19] every-plus-elision-so-far-is-associated: forall j int {rhs[j]} :: 0 <= j && j < #k ==> has(conns, rhs[j])
 //@     invariant [C04,C13] associated-with-an-elision-at-or-before-it: forall k int {has(conns, k)} :: has(conns, k) && !old(has(conns, k)) ==> posLE(posOfFn(getPosition, conns[k]), posOfFn(getPosition, k))
-//@     invariant len(lhs) == old(len(lhs))
+//@     invariant len(lhs) == len(lhs0)
 
 // The memoising position lookup of connectDots: faithful to the FileSet.
 //@ func connectDots$1(pos) (p)
